@@ -207,6 +207,8 @@ def _ntok(t):
     if isinstance(t, (list, tuple)) and t and t[0] in ('near', 'in9x', 'in9y',
                                                        'vnear', 'vin9'):
         return t[1]
+    if isinstance(t, (list, tuple)) and t and t[0] == 'vuint1':
+        return ('vuint', t[1])
     return tuple(t) if isinstance(t, list) else t
 
 
@@ -274,6 +276,25 @@ def mk_value(kind, tok, near=False):
             if nz:
                 r[ax][nz[-1]] = r[ax][nz[-1]] * (1 + rel)
                 break
+    if deco == 'infx' and kind == 'pixpos':
+        # an infinite coordinate is a coordinate: equal to itself, unequal to
+        # every finite one
+        r = dict(r)
+        r['x'] = float('inf')
+    if deco in ('vuint', 'vuint1') and kind == 'pixverts':
+        # the same vertices, large and held in unsigned integer arrays;
+        # 'vuint1' is one pixel off in one place (3e-6 relative: EQUAL)
+        x = [int(round(abs(c) * 1e5)) + 300000 for c in r['x']]
+        y = [int(round(abs(c) * 1e5)) + 300000 for c in r['y']]
+        if deco == 'vuint1':
+            x[-1] += 1
+        r = {'t': 'pix', 'x': {'t': 'arr', 'v': x, 'dtype': 'uint32'},
+             'y': {'t': 'arr', 'v': y, 'dtype': 'uint32'}}
+    if deco == 'obst' and kind in ('skypos', 'skyverts'):
+        # the same direction with an extra coordinate attribute (the time
+        # of observation): another coordinate
+        r = dict(r)
+        r['obstime'] = 'J2010'
     if deco == 'ulpskyv' and kind == 'skyverts':
         r = dict(r)
         r['lat'] = list(r['lat'])
@@ -296,13 +317,15 @@ def decorate(rng, kind, tok):
     if kind in ('size', 'asize', 'angle') and rng.chance(0.15):
         return ['ulp', tok]
     if kind == 'pixpos' and rng.chance(0.3):
-        return [rng.pick(['far', 'out11x', 'out11y', 'in9x', 'in9y']), tok]
-    if kind == 'skypos' and rng.chance(0.1):
-        return ['ulpsky', tok]
+        return [rng.pick(['far', 'out11x', 'out11y', 'in9x', 'in9y',
+                          'infx']), tok]
+    if kind == 'skypos' and rng.chance(0.2):
+        return [rng.pick(['ulpsky', 'obst']), tok]
     if kind == 'pixverts' and rng.chance(0.3):
-        return [rng.pick(['vnear', 'vin9', 'vout11', 'vfar']), tok]
-    if kind == 'skyverts' and rng.chance(0.1):
-        return ['ulpskyv', tok]
+        return [rng.pick(['vnear', 'vin9', 'vout11', 'vfar', 'vuint',
+                          'vuint1']), tok]
+    if kind == 'skyverts' and rng.chance(0.2):
+        return [rng.pick(['ulpskyv', 'obst']), tok]
     return tok
 
 
@@ -1132,6 +1155,19 @@ class Machine:
                 items = draw_dict_items(rng, f)
             val = build({'t': f, 'v': items})
             new_dict = MDict(f, items_to_model(items))
+        elif how == 'special':
+            # values of an unusual but legal kind: an infinite coordinate,
+            # unsigned-integer vertex arrays (and their one-pixel twin), a
+            # coordinate carrying an extra attribute
+            t0 = m.tok[f]
+            if not isinstance(t0, int):
+                return
+            deco = {'pixpos': 'infx', 'skypos': 'obst', 'skyverts': 'obst',
+                    'pixverts': 'vuint'}[kind]
+            val = mk_value(kind, [deco, t0])
+            new_tok = [deco, t0]
+            how = 'copy' if rng.chance(0.5) else 'assign'
+            special = True
         elif how in ('tol_in', 'tol_out'):
             # the same position just inside / just outside the documented
             # relative tolerance of pixel positions (one coordinate)
@@ -1193,6 +1229,26 @@ class Machine:
             mc.tok[f] = new_tok
         self._copy_checks(f'{how}({f})', a, c, mc, {f}, given_objs=[val])
         i = self.add_slot('region', c, mc)
+        if new_tok is not None and isinstance(new_tok, list) and \
+                new_tok[0] in ('infx', 'obst', 'vuint'):
+            # ... which is equal to itself, to its own copy, and (for the
+            # integer vertices) to its one-pixel twin, from both sides
+            self.compare_objs(c, c, True, f'{cls} with a special {f} and '
+                              'itself', cls)
+            try:
+                c2 = c.copy()
+            except Exception as exc:
+                self.violation('V2-copy-raises', f'copy() of {cls} with a '
+                               f'special {f} raised {exc!r}', cls=cls)
+                return
+            self.compare_objs(c, c2, True, f'{cls} with a special {f} and '
+                              'its copy', cls)
+            if new_tok[0] == 'vuint':
+                tw = obj.copy(**{f: mk_value(kind, ['vuint1', new_tok[1]])})
+                self.compare_objs(c, tw, True, f'{cls}: unsigned-integer '
+                                  'vertices and their one-pixel twin', cls)
+                self.compare_objs(tw, c, True, f'{cls}: one-pixel twin and '
+                                  'the unsigned-integer vertices', cls)
         self.ev(slot=i, src=a, cls=cls, field=f, how=how)
         self.state('cell16', cls, f, how)
         self.check_unchanged({id(mc), id(mc.meta), id(mc.visual)},
@@ -1578,7 +1634,11 @@ class Machine:
                 f = rng.pick(sorted(kinds))
                 kind = kinds[f]
                 t0 = tm.tok[f]
-                if isinstance(t0, list) and t0[0] == 'derived':
+                if isinstance(t0, list) and t0[0] in ('derived', 'obst',
+                                                       'vuint', 'vuint1',
+                                                       'infx'):
+                    # (special-valued fields are not edited in place: the
+                    # harness's own arithmetic on them would not be exact)
                     return
                 base_tok = t0[1] if isinstance(t0, list) else t0
                 self.nmut += 1
@@ -3271,7 +3331,9 @@ def c16_cells():
                 if kind in ('asize', 'angle'):
                     hows.append('unit')
                 if kind in ('pixpos', 'pixverts'):
-                    hows += ['tol_in', 'tol_out']
+                    hows += ['tol_in', 'tol_out', 'special']
+                if kind in ('skypos', 'skyverts'):
+                    hows.append('special')
                 if f == 'angle':
                     hows.append('default_twice')
                 for how in hows:
